@@ -762,14 +762,23 @@ def run_sample(cuqi, meta):
     cb = []
     out = {"computed": computed, "A_eff": A_eff, "m": m, "n": n, "BP": BP}
     try:
+        sargs = dict(meta.get("sargs") or {})
+        entry = sargs.pop("entry", "sample_posterior")
         with ScriptedRandom(seed=1, script=script):
-            S = quiet(BP.sample_posterior, Ns, callback=lambda s, i: cb.append((s.copy(), i)))
+            if entry == "UQ":       # UQ = sample_posterior + plots: must hand back the very samples of the direct route
+                import matplotlib.pyplot as plt
+                try:
+                    S = quiet(BP.UQ, Ns=Ns, **sargs)
+                finally:
+                    plt.close("all")
+            else:
+                S = quiet(BP.sample_posterior, Ns, callback=lambda s, i: cb.append((s.copy(), i)), **sargs)
         X = np.array(S.samples, dtype=float)
         out["samples"] = X
         out["flags"] = bool(X.shape == (n, Ns) and S.geometry is BP.model.domain_geometry
                             and [c for c in calls] == [("randn", (n,))] * Ns
-                            and [i for _, i in cb] == list(range(Ns))
-                            and all(np.array_equal(s, X[:, i]) for s, i in cb))
+                            and (entry == "UQ" or ([i for _, i in cb] == list(range(Ns))
+                                                   and all(np.array_equal(s, X[:, i]) for s, i in cb))))
         out["obs"] = "ok"
     except Exception as e:
         out["obs"] = err_kind(e)
@@ -779,6 +788,8 @@ def run_sample(cuqi, meta):
 
 
 def sample_oracle(meta, out):
+    if out["obs"] == "ok" and out["samples"].shape != (out["n"], out["n"] + 2):
+        return "wrong number of draws"
     if out["obs"] != "ok":
         return ("sample_posterior raised an unexpected exception kind: %s" % out["obs"]) if out["obs"].startswith("Other") else None
     m, n, A_eff = out["m"], out["n"], out["A_eff"]
@@ -810,6 +821,10 @@ def case_sample(cuqi, meta, fixed, cell):
     out = run_sample(cuqi, meta)
     fail = sample_oracle(meta, out)
     m, n = out["m"], out["n"]
+    if out["obs"] == "ok" and out["samples"].shape != (n, n + 2):
+        return Case(expr="false", meta=meta, cell=cell, kind="DECISION",
+                    impl_fail="the direct route was asked for %d draws and handed back an array of shape %s" % (n + 2, out["samples"].shape,),
+                    signature=SIG_SAMPLE)
     if out["obs"] == "ok":
         X = out["samples"]
         mu = X[:, 0]
@@ -1025,6 +1040,12 @@ def case_setup(cuqi, meta):
             r = quiet(getattr(BP, which), x0=x0) if x0 is not None else quiet(getattr(BP, which))
     finally:
         cuqi.config.MAX_DIM_INV = old
+    if "func" not in rec:
+        # no cuqi.solver object was built: the entry point took some other route than _solve_max_point
+        P = "(mk_pinfo %s %s %s %s %s %s)" % (cnat(DCLS.index(meta["prior"]) if meta["prior"] in DCLS else 7),
+                                              cnat(DCLS.index(meta["lik"])), cbool(meta["linear"]), cnat(meta["m"]), cnat(n), cbool(has_grad))
+        return Case(expr="check_entry_route %s %s %s %s false" % (cbool(which == "ML"), P, cnat(1), cnat(label_of(r.info))), meta=meta,
+                    cell="setup/%s/%s/no-solver-built" % (which, meta["prior"]), kind="DECISION")
     geom_ok = r.geometry is (BP.posterior.geometry if which == "MAP" else BP.likelihood.geometry)
     ret_ok = bool(isinstance(r, cuqi.array.CUQIarray) and np.array_equal(np.asarray(r), point) and geom_ok and rec["kw"] == {})
     label_ok = r.info.get("solver") == "L-BFGS-B" and r.info.get("message") == "stub"
@@ -1074,7 +1095,7 @@ def case_opt(cuqi, meta):
     try:
         BP, A_eff, m, n, computed = build_problem(cuqi, meta)
         which = meta["which"]
-        x0 = None if meta.get("x0") is None else np.array(meta["x0"], dtype=float)
+        x0 = None if meta.get("x0") is None else make_x0(cuqi, {"style": meta.get("x0_style", "ndarray"), "val": meta["x0"]}, BP)
         r = quiet(getattr(BP, which), x0=x0) if x0 is not None else quiet(getattr(BP, which))
     finally:
         cuqi.config.MAX_DIM_INV = old
@@ -1373,7 +1394,8 @@ def gen_opt_metas(ctx):
                     m, n = rng.choice([(3, 2), (3, 3), (4, 3)] if which == "ML" else [(2, 3), (3, 3), (3, 2)])
                     c = dict(m=m, n=n, ke=ke, kx=kx, pe="cov", px="cov", model="general" if force == "general" else "dense", geom="default", mean="vec")
                     meta = instantiate(rng, c, op="opt")
-                    meta.update(which=which, force=force, m=m, n=n, x0=[dy(rng, -2, 2) for _ in range(n)] if rng.random() < 0.4 else None)
+                    meta.update(which=which, force=force, m=m, n=n, x0=[dy(rng, -2, 2) for _ in range(n)] if rng.random() < 0.5 else None,
+                                x0_style=rng.choice(["ndarray", "list", "cuqiarray"]))
                     out.append(meta)
     return out
 
@@ -1433,6 +1455,18 @@ def run(ctx):
         meta = instantiate(rng, c, "sample")
         meta["z"] = [dy(rng, -2, 2, 4) for _ in range(c["n"])]
         cases.append(case_sample(cuqi, meta, fixed, cell_name(c, "sample")))
+    # optional arguments of the direct sampling route (Nb is documented as unused there; experimental must not change it) and UQ
+    base = dict(pe="cov", px="cov", model="dense", geom="default", mean="vec")
+    for i, sargs in enumerate([{"Nb": 0}, {"Nb": 2}, {"experimental": True}, {"Nb": 1, "experimental": True},
+                               {"entry": "UQ"}, {"entry": "UQ", "Nb": 1, "percent": 90}, {"entry": "UQ", "experimental": True, "exact": "zeros"}]):
+        for (ke, kx, m, n) in [("matrix", "matrix", 2, 3), ("vector", "scalar", 3, 2)]:
+            c = dict(base, m=m, n=n, ke=ke, kx=kx)
+            meta = instantiate(rng, c, "sample")
+            meta["z"] = [dy(rng, -2, 2, 4) for _ in range(n)]
+            meta["sargs"] = dict(sargs)
+            if meta["sargs"].get("exact") == "zeros":
+                meta["sargs"]["exact"] = [0.0] * n
+            cases.append(case_sample(cuqi, meta, fixed, cell_name(c, "sample") + "/args:" + ",".join(sorted(sargs))))
     for meta in gen_route_metas(ctx):
         cases.append(case_route(cuqi, meta))
     for meta in gen_cascade_metas(ctx):
